@@ -109,6 +109,18 @@ def programs(  # noqa: PLR0913
         if "child" in features:
             opts.append(st.builds(lambda b: {"op": "child", "body": b}, block))
         if "parallel" in features:
+            # a branch that parks on a short timer next to a sibling that is still running when the timer fires:
+            # the executor's timer thread then re-runs the parked branch inside the same invocation
+            resub = st.builds(
+                lambda pre, w, post, slow_sleep, comp_all: {
+                    "op": "parallel",
+                    "branches": [[pre, w, post], [{"op": "step", "beh": {"kind": "ret", "v": 7}, "sem": "least", "retry": {"kind": "none"}, "sleep": slow_sleep}]],
+                    "cfg": {"max_concurrency": None, "completion": {"min": None, "tol": 2, "pct": None}}},
+                steps(vals, allow_fail=False, sems=sems), st.one_of(st.just({"op": "wait", "secs": 1}),
+                                                                     st.just({"op": "step", "beh": {"kind": "fail_by_attempt", "k": 1, "err": "UserError", "v": 1}, "sem": "least",
+                                                                              "retry": {"kind": "table", "max": 3, "delays": [1], "nonretry": []}})),
+                steps(vals, allow_fail=False, sems=sems), st.sampled_from([1.5, 2.5, 3.5]), st.booleans())
+            opts.append(resub)
             opts.append(
                 st.lists(block, min_size=1, max_size=3).flatmap(
                     lambda brs: st.builds(
@@ -159,7 +171,7 @@ def wfconds(max_polls=4, fail=False):
 
 def backend_cfgs():
     return st.builds(
-        lambda resp, page, first, sp, prune, lag, lat: {"response": resp, "page_size": page, "first_page": first, "state_page": sp, "prune_children": prune, "timer_lag": lag, "api_latency": lat},
+        lambda resp, page, first, sp, prune, lag, lat, ep: {"response": resp, "page_size": page, "first_page": first, "state_page": sp, "prune_children": prune, "timer_lag": lag, "api_latency": lat, "empty_page_at": ep},
         st.sampled_from(["delta", "delta", "full"]),
         st.sampled_from([None, None, 1, 2, 5]),
         st.sampled_from([None, None, 0, 1, 3]),
@@ -167,6 +179,7 @@ def backend_cfgs():
         st.booleans(),
         st.sampled_from([0.0, 0.0, 0.5, 2.0]),
         st.sampled_from([0.0, 0.0, 0.0, 0.1, 0.2]),
+        st.sampled_from([None, None, None, 0, 1]),
     )
 
 
